@@ -147,6 +147,8 @@ impl CompactionWorker {
                         }
                     }
 
+                    #[cfg(feature = "verif_hooks")]
+                    crate::verif::point("worker.tasks_drained");
                     if database_state.is_shutting_down.load(Ordering::Acquire) {
                         log::info!("Compaction thread terminated.");
                         break;
